@@ -130,8 +130,14 @@ def rules(ctx, tier):
         for site in dels:
             n_cb += 1
             check_callback_list(ctx, r, V, site, fcont, owner)
-    for site in direct_unlinks:
-        check_direct_unlink(ctx, r, site, fcont)
+    # direct unlinks (not behind the delete callback): judged at the syscall itself, in the flat view of the function
+    # that supplies the path when the syscall sits in a private helper
+    builders = tuple(sorted(p_ for p_, bd in prog.bodies.items() if not bd.is_closure and
+                            prog.adt_of(bd.locals[0])[0] in ("std::path::PathBuf", "std::path::Path")))
+    for (vb, vsite, kb) in ctx.concrete_occurrences("BLOB_UNLINK", stop=builders):
+        if kb.path in cb_reach or vsite.body.origin_key(vsite.bb)[0] in cb_reach:
+            continue
+        check_direct_unlink(ctx, r, vsite, fcont, kb=kb)
     r.check(n_cb >= 1, "callback-sites", None, "%d delete-callback call site(s)" % n_cb,
             "expected at least 1 delete-callback call site, found %d" % n_cb)
     r.need(9, "2 callback sites x3 + 3 direct unlinks x2")
@@ -408,10 +414,13 @@ def check_callback_list(ctx, r, b, site, fcont, kb=None):
             "the delete list is modified by %s" % ", ".join("%s at %s" % (s.path, site_where(s)) for s in others))
 
 
-def check_direct_unlink(ctx, r, site, fcont):
+def check_direct_unlink(ctx, r, site, fcont, kb=None):
     """An unlink in a body that is not behind the delete callback: it must be dominated by the false
-    edges of a refcount test and of an intents test on the same hash that names the unlinked path."""
+    edges of a refcount test and of an intents test on the same hash that names the unlinked path.
+    `site` may be a site of a flat view (the tests may sit in the caller of a helper that only unlinks)."""
     b = site.body
+    kb = kb or (b.origin_body(site.bb) if getattr(b, "is_flat", False) else b)
+    is_flat = getattr(b, "is_flat", False)
     sl = Slicer(ctx.world, b)
     # hash behind the unlinked path
     path_leaves = sl.leaves_of_operand(site.term["args"][0])
@@ -443,17 +452,17 @@ def check_direct_unlink(ctx, r, site, fcont):
             if l[0] != "call":
                 continue
             s2 = Site(b, l[2], b.blocks[l[2]]["term"])
-            names = site_sem(ctx, s2)
+            names = site_sem(ctx, b.orig_site(s2) if is_flat else s2)
             same = _same_hash(ctx, sl, s2, hash_leaves)
             if "REFCNT_READ" in names and same:
                 ref_guard = True
             if ("INTENT_READ" in names or _iter_over_intents(ctx, b, sl, s2, fcont)) and same:
                 int_guard = True
-    r.check(ref_guard, "guard:not-referenced:%s" % site_construct(site), b,
+    r.check(ref_guard, "guard:not-referenced:%s" % site_construct(site), kb,
             "unlink at %s only if the index does not reference the hash" % site_where(site),
             "unlink at %s is not guarded by a 'still referenced' test of the same hash" % site_where(site),
             site_where(site))
-    r.check(int_guard, "guard:no-intent:%s" % site_construct(site), b,
+    r.check(int_guard, "guard:no-intent:%s" % site_construct(site), kb,
             "unlink at %s only if no live intent holds the hash" % site_where(site),
             "unlink at %s is not guarded by a live-intent test of the same hash" % site_where(site),
             site_where(site))
@@ -575,6 +584,21 @@ def guard_alive(ctx, r, chain):
                        and not V.blocks[x]["term"]["place"]["p"]]
             if moved or not dropped:
                 consumed = True
+        # the apply step lies behind the publish: in the innermost function of the publish chain that also makes the
+        # applying call, the publish step dominates it (a 'content already stored' shortcut around the publish leaves
+        # the index pointing at a file this commit never put there - and nobody's intent protects)
+        for fs in reversed(chain):
+            fb = fs.body
+            applies_ = [a for a in fb.calls() if a.bb != fs.bb and "INDEX_MUTATE" in sem_set(ctx.may.site_events(a))
+                        and prog.local_target(a) is not None]
+            if not applies_:
+                continue
+            behind = all(fb.dominates(fs.bb, a.bb) for a in applies_ if a.bb in cfgutil.reach(fb, 0))
+            r.check(behind, "apply-behind-publish", fb,
+                    "in %s the applying call lies behind the publish step (%s)" % (fb.path, site_where(fs)),
+                    "in %s the index can be updated on a path that did not go through the publish at %s" % (
+                        fb.path, site_where(fs)), site_where(fs))
+            break
         r.check(consumed, "guard-consumed-by-apply", b0,
                 "after the publish the guard is handed to the call that logs and applies",
                 "after the publish the intent guard is not handed to the applying call (it may die before apply)")
